@@ -102,12 +102,16 @@ def killIndex (acts : List Act) (kind : String) (j : Nat) : Nat :=
 
 def fs0 (old : Option FileData) : FS := fun p => if p = dstP then old else none
 
-/-- what a concurrent reader can see: the destination after every prefix of the actions -/
+/-- what a concurrent reader can see: the destination after every prefix of the actions.  Only actions that name the
+    destination among their `targets` can change it (`Safe.apply_untouched`), so it is re-examined after those only. -/
 def readerOk (umask : Nat) (old : Option FileData) (new : FileData) (acts : List Act) : Bool :=
+  let ok (fs : FS) : Bool := fs dstP = old ∨ fs dstP = some new
   let rec go : FS → List Act → Bool
-    | fs, [] => fs dstP = old ∨ fs dstP = some new
-    | fs, a :: as => (fs dstP = old ∨ fs dstP = some new) && go (applyAct umask fs a) as
-  go (fs0 old) acts
+    | _, [] => true
+    | fs, a :: as =>
+      let fs' := applyAct umask fs a
+      (if (targets a).contains dstP then ok fs' else true) && go fs' as
+  ok (fs0 old) && go (fs0 old) acts
 
 /-- size of the temporary file after each piece handed to bufio: change points `i:size` -/
 def midPoints (N : Nat) (pieces : List Bytes) (upto : Nat) : String :=
